@@ -52,7 +52,7 @@ def _atoms():
     for kw in ("minimum", "maximum", "exclusiveMinimum", "exclusiveMaximum"):
         for n in (0, 1, 1.5):
             add(kw, {kw: n}, "numeric")
-    for n in (2, 0.5, 1.5):
+    for n in (2, 0.5, 1.5, 2.0):
         add("multipleOf", {"multipleOf": n}, "numeric")
     # string
     for f in ("uuid", "date-time", "x-unregistered"):
